@@ -579,7 +579,7 @@ where
                 warn!("IRQ during sleep/standby/listen?");
             }
             RadioMode::FrequencySynthesis => todo!(),
-            RadioMode::Receive(RxMode::DutyCycle(_)) => todo!(),
+            RadioMode::Receive(RxMode::DutyCycle(_)) => return Err(RadioError::DutyCycleUnsupported),
         }
 
         // If no specific IRQ condition is met, return None
